@@ -246,6 +246,46 @@ theorem step_shape (cfg : Cfg) (ps : PS) (r : Req) :
     simp [goodM3, this]
 
 
+/-! ### bystander events -/
+
+theorem run_eq (cfg : Cfg) (ps : PS) (r : Req) (rs : List Req) :
+    run cfg ps (r :: rs)
+      = ((run cfg (step cfg ps r).1 rs).1, (step cfg ps r).2.1 :: (run cfg (step cfg ps r).1 rs).2) := by
+  simp [run]
+
+/-- bystander events are invisible to pair-setup: a history of events behaves exactly like the sequence
+    of its pair-setup requests -/
+theorem runEv_eq_run (cfg : Cfg) (evs : List Ev) : ∀ ps, runEv cfg ps evs = run cfg ps (reqsOf evs) := by
+  induction evs with
+  | nil => intro ps; rfl
+  | cons e es ih =>
+    intro ps
+    cases e with
+    | req r => simp only [runEv, stepEv, reqsOf, ih]; rw [run_eq]
+    | connLost => simp only [runEv, stepEv, reqsOf, ih]
+    | other => simp only [runEv, stepEv, reqsOf, ih]
+
+/-- a served M1 always installs a fresh, unverified verifier made from this request's randomness,
+    whatever verifier (or none) was there before -/
+theorem m1_fresh (cfg : Cfg) (ps : PS) (r : Req) (t : Items) (hp : ps.paired = [])
+    (hd : Tlv.decode r.body [] = some t) (hs : lookup t T_SEQUENCE_NUM = some [1]) :
+    (step cfg ps r).1.verifier
+        = some (Srp.mk cfg.c.H cfg.G SRP_USER ps.pincode r.salt (bytesToNat r.bRand)) ∧
+    verifiedNow (step cfg ps r).1 = false ∧
+    (step cfg ps r).2.1
+        = .m2 r.salt (Srp.mk cfg.c.H cfg.G SRP_USER ps.pincode r.salt (bytesToNat r.bRand)).Bb := by
+  rw [step_seq cfg ps r t [1] hp hd hs]
+  simp [pairingOne, verifiedNow, Srp.mk]
+
+/-- no request changes the accessory's setup code, identifier or long-term key -/
+theorem step_identity (cfg : Cfg) (ps : PS) (r : Req) :
+    (step cfg ps r).1.pincode = ps.pincode ∧ (step cfg ps r).1.mac = ps.mac ∧
+    (step cfg ps r).1.ltpk = ps.ltpk := by
+  unfold step pairingOne pairingTwo pairingThree pairingThreeKey pairingFour pairingFive
+  simp only []
+  repeat' split
+  all_goals simp
+
 /-! ### histories -/
 
 /-- Specification ghost, independent of the code's own record: "in the exchange opened by the most
